@@ -87,6 +87,8 @@ def case_strategy(draw):
         'outcome': draw(st.sampled_from([['status', 0x0000], ['status', 0x0000], ['status', 0xB000], ['status', 0xB007],
                                          ['status', 0xA700], ['status', 0xC000], ['raise', 0]])),
         'repeat': draw(st.sampled_from([1, 1, 2, 3])),
+        # pad the bulk element so that the encoded data set is an exact multiple of the fragment size (+delta)
+        'align': draw(st.sampled_from([None, None, 0, 0, 1, -1])),
     }
 
 
@@ -126,13 +128,23 @@ def run_case(case):
             ae = Srv('SRV', 0, [ts], case['server_max'])
         ae.add_scp(sopclass.storage_scp)
         sent = []
+        frag = min(case['client_max'], case['server_max']) - 6
         for k in range(case['repeat']):
             ds = build_ds(case['ds'])
             ds.SeriesDescription = 'copy %d' % k          # same instance UID, different content
+            if case.get('align') is not None:
+                from ..dimsegen import patterned
+                ds.EncapsulatedDocument = b''
+                base = len(svc.enc_ds(ds, ts))
+                target = (base // frag + 2) * frag + case['align']
+                pad = target - base
+                pad -= pad % 2                              # OB values are padded to even length
+                ds.EncapsulatedDocument = patterned(max(0, pad), k)
             sent.append(ds)
         got_status = []
         with lb.quiet_stderr() as err, lb.serving(ae) as port:
             client = applicationentity.ClientAE('CLI', [ts], case['client_max'])
+            client.timeout = 6
             client.add_scu(sopclass.storage_scu, [sop])
             remote = {'aet': 'SRV', 'address': '127.0.0.1', 'port': port}
 
@@ -209,17 +221,17 @@ FIXED = [
     {'ds': {'SOPClassUID': svc.SC_STORAGE, 'SOPInstanceUID': '1.2.826.0.1.3680043.9.15.1', 'PatientName': 'Dup^One',
             'EncapsulatedDocument': {'len': 301, 'salt': 3}},
      'ts': 0, 'client_max': 16384, 'server_max': 128, 'source': 'memory', 'reception': 'directory',
-     'outcome': ['status', 0], 'repeat': 3},
+     'outcome': ['status', 0], 'repeat': 3, 'align': None},
     {'ds': {'SOPClassUID': svc.CT_STORAGE, 'SOPInstanceUID': '1.2.826.0.1.3680043.9.15.2', 'PatientID': 'odd',
             'RedPaletteColorLookupTableData': {'len': 3000, 'salt': 9},
             'ReferencedStudySequence': [{'ReferencedSOPClassUID': svc.CT_STORAGE, 'ReferencedSOPInstanceUID': '1.2.3',
                                          'ReferencedSeriesSequence': [{'ReferencedSOPClassUID': svc.SC_STORAGE,
                                                                        'ReferencedSOPInstanceUID': '1.2.4'}]}]},
      'ts': 2, 'client_max': 128, 'server_max': 65536, 'source': 'file', 'reception': 'tempfile',
-     'outcome': ['raise', 0], 'repeat': 1},
+     'outcome': ['raise', 0], 'repeat': 1, 'align': 0},
     {'ds': {'SOPClassUID': svc.SC_STORAGE, 'SOPInstanceUID': '1.2.826.0.1.3680043.9.15.3', 'StudyDescription': 'x'},
      'ts': 1, 'client_max': 1024, 'server_max': 4096, 'source': 'file', 'reception': 'memory-file',
-     'outcome': ['status', 0xB000], 'repeat': 2},
+     'outcome': ['status', 0xB000], 'repeat': 2, 'align': 0},
 ]
 
 
@@ -227,11 +239,23 @@ def one(ctx, case, label):
     try:
         nfrag = run_case(case)
     except lb.Inconclusive as inc:
+        # a time-out may be environmental - or the symptom of a lost fragment.  Run the very same case twice
+        # more: only a time-out that reproduces every time is reported.
+        again = 0
+        for _ in range(2):
+            try:
+                nfrag = run_case(case)
+                break
+            except lb.Inconclusive:
+                again += 1
+        if again == 2:
+            raise Violation('%s:timeout-reproducible' % PROP, 'storing never completes (3 of 3 attempts timed out): %s' % inc, case)
         ctx.inconclusive += 1
         ctx.label('inconclusive')
-        return
-    ctx.case(case, nfrag >= 2 or case['repeat'] > 1,
-             labels=[label, 'ts=%d' % case['ts'], 'src=' + case['source'], 'recv=' + case['reception'],
+        if again:
+            return
+    ctx.case(case, nfrag >= 2 or case['repeat'] > 1 or case.get('align') is not None,
+             labels=[label, 'ts=%d' % case['ts'], 'src=' + case['source'], 'recv=' + case['reception'], 'align=%s' % case.get('align'),
                      'repeat=%d' % case['repeat'], 'multi-fragment' if nfrag >= 2 else 'small'],
              sample={k: (v if k != 'ds' else {kk: (vv if not isinstance(vv, list) else '<%d items>' % len(vv))
                                                 for kk, vv in v.items()}) for k, v in case.items()})
@@ -259,7 +283,7 @@ def run(ctx):
                 '1-3 stores of the same instance UID with different content; whole stack over real loopback TCP with '
                 'real threads; plus 3 fixed cases; non-trivial = >=2 data fragments or a repeated UID')
     ctx.assumptions = ['schedules are whatever the OS produces (sampled, not enumerated); a library time-out or a case '
-                       'exceeding %d s is inconclusive, not a violation' % CASE_LIMIT,
+                       'exceeding %d s is inconclusive unless it reproduces in 3 of 3 attempts' % CASE_LIMIT,
                        'data sets compared by canonical re-encoding (explicit VR little endian) with pydicom']
     if ctx.thorough:
         jobs = [{'n': 25, 'shrink': True, 'fixed': FIXED if i == 0 else []} for i in range(16)]
